@@ -54,6 +54,16 @@ CHECKS['C16'] = dict(
    note='Partial by nature: the model and the scheduler work at athlib source-line granularity; bytecode-level pre-emption inside a line, C-level dict atomicity and free-threaded builds are outside both. Trusted: Lean kernel; axioms propext, Classical.choice, Quot.sound; tools/gen_access.py; tools/sched.py.',
    technique='Lean 4 invariant proofs over step machines (all schedules) + ast access-discipline obligation + sys.settrace schedule enumeration on the real code',
    ref='7/C16')
+CHECKS['C07'] = dict(
+   text='Machine-checked proofs over the Lean transcription of normalize_event_code (capture-reporting backtracking matcher on the patterns, group map and normaliser table regenerated from codes.py / utils.py): for ALL strings no result contains white space; a string is refused with ValueError exactly when the general pattern rejects it and no other error is possible; relay results have the shape legs x LEG; the zero-stripper removes exactly the fraction zeros and a then-bare point; unit normalisers end in their canonical unit. The closure clauses (result accepted, idempotent, same families, variants collapse) are decided over the language enumerated from the syntax tree with case / spacing / unit-suffix / trailing-zero variants and near-misses: on the implementation by the property oracle, and against the model by correspondence; the matcher itself is validated against re.match group spans.',
+   note='Partial: C07_statement (closure) is stated, not proved; a reflection proof of upper-casing closure was attempted and abandoned (derivative automaton does not close without ACI normalisation). Trusted: Lean kernel; axioms propext, Quot.sound, Classical.choice; tools/gen_regex.py; ASCII letters for str.upper.',
+   technique='Lean 4 proof over a transcription with regenerated patterns + enumerated-language correspondence and property oracle',
+   ref='7/C07')
+CHECKS['C10'] = dict(
+   text='Machine-checked proofs over the Lean transcription of discipline_sort_key / text key / sorter / get_distance / duration / unit_name: the category of every key is that of the first family matching in programme order (track 1 < hurdles 2 < jumps 3 < throws 4 < relays 5 < other 6); five-digit zero padding is an order isomorphism below 100000 (text key sorts like the tuple key); text key shape; relay distance = legs x leg distance; the sorter keeps the number of entries; kernel-decided on regenerated data: conventional field order HJ PV LJ TJ SP DT HT JT and totality of the field-order look-up on every generic field code (this obligation exposed the TART defect). Totality on the whole accepted language is decided by correspondence + "returns, does not raise" on the implementation over the language enumerated from the syntax tree; ordering clauses on seeded pairs; sorter on lists with repeated / missing disciplines.',
+   note='Partial: C10_total_statement is stated, not proved. get_distance values of non-integral quantities are compared only as "a value" (binary truncation of int(1000*float)). Trusted: as C07.',
+   technique='Lean 4 proof over a transcription with regenerated patterns + enumerated-language correspondence',
+   ref='7/C10')
 NOT_YET = {}
 def main():
     props = [json.loads(l) for l in open(os.path.join(HERE, 'properties.jsonl'))]
